@@ -149,6 +149,11 @@ class Ctx:
     def lean_build(self, modules: Sequence[str], timeout: int = 1500) -> bool:
         """lake build of the given modules; records obligations (theorems of Properties files)"""
         ok = True
+        from . import extract
+        for name, err in extract.FAILED:
+            # the extractor could not read the working tree any more: the model is no longer tied to this code
+            self.broke("extraction", f"Generated/{name}.lean", f"vf/extract.py could not regenerate {name} from /repo's working tree ({err}); the committed table was kept")
+        extract.FAILED.clear()
         with _lean_lock():
             for m in modules:
                 cmd = ["lake", "build", m]
@@ -273,6 +278,12 @@ class Ctx:
     # ---- finish ------------------------------------------------------------------------------
     def finish(self) -> int:
         wall = time.time() - self.t0
+        try:
+            from . import evaluation as _E
+            if _E.ARM_STATS:
+                self.coverage["evaluations_served_by"] = dict(_E.ARM_STATS)
+        except Exception:  # pylint:disable=broad-except
+            pass
         REPLAYS.mkdir(exist_ok=True)
         EVIDENCE.mkdir(exist_ok=True)
         lines: List[str] = []
